@@ -107,8 +107,10 @@ nothing is pending on the caller side (`pending = []`, `removed = []`: the last
 caller action was a flush); the worker is in any control state with any queue;
 no removal stays postponed once the worker has run to completion. Then for
 every `cfg'`, with `y1 := y.step .drop`, `y2 := y1.step (.openWith cfg')`:
-`y1` is `workerIdle` + `drop`; `open` returns `ok`, emits no event, leaves the
-file system as `drop` left it; the reopened store has the state, index map and
+`y1` is `workerIdle` + `drop`; `open` returns `ok`, emits only the syncs of the chunk
+files it keeps and raises only their durable marks (D15: `syncEvs y1.fs.linkedIds`,
+`y1.fs.syncAll y1.fs.linkedIds`; old: no event, `y1.fs`; see
+`c14_busy_open_fs_unchanged_if_durable`); the reopened store has the state, index map and
 chunk table of the dropped store; `CSys y2 r` holds again; and if the cache
 limits of `cfg'` cover the `Append` records in the files, the reopened store
 refines `r` (`Refines`, `SysRef`). -/
@@ -122,8 +124,9 @@ theorem c14_busy_restart_step (y : Sys) (r : RefLog) (cfg' : Cfg) (s : Store) (h
     (y.step .drop).worker.pc = .dead ∧ (y.step .drop).worker.queue = [] ∧
     ∃ s', ((y.step .drop).step (.openWith cfg')).store = some s' ∧
       ({ (y.step .drop) with cfg := cfg' } : Sys).open.1 = .ok () ∧
-      ({ (y.step .drop) with cfg := cfg' } : Sys).open.2.2 = [] ∧
-      ((y.step .drop).step (.openWith cfg')).fs = (y.step .drop).fs ∧
+      ({ (y.step .drop) with cfg := cfg' } : Sys).open.2.2 = syncEvs (y.step .drop).fs.linkedIds ∧
+      ((y.step .drop).step (.openWith cfg')).fs
+        = (y.step .drop).fs.syncAll (y.step .drop).fs.linkedIds ∧
       s'.st = s.st ∧ s'.st = r.state ∧ s'.log = s.log ∧
       s'.closed = s.closed ∧ s'.openOffsets = s.openOffsets ∧
       s'.pending = [] ∧ s'.removed = [] ∧ s'.cfg = cfg' ∧
@@ -159,6 +162,27 @@ theorem c14_busy_restart_step (y : Sys) (r : RefLog) (cfg' : Cfg) (s : Store) (h
   rw [g1] at q1; cases q1
   exact ⟨q2, q4⟩
 
+/-- D15: in (2), if every linked file the `drop` leaves is durable (the normal case: the
+join synced everything), `open` leaves the file system exactly as `drop` left it. -/
+theorem c14_busy_open_fs_unchanged_if_durable (y : Sys) (r : RefLog) (cfg' : Cfg) (s : Store)
+    (h : CSys y r) (hs : y.store = some s) (ht : y.worker.TodoOK)
+    (ha : y.worker.senderAlive = true) (hp : s.pending = []) (hrem : s.removed = [])
+    (hpostI : (y.step .workerIdle).worker.postponed = [])
+    (hd : ∀ f ∈ (y.step .drop).fs, f.linked = true → f.durable = f.data.length) :
+    ((y.step .drop).step (.openWith cfg')).fs = (y.step .drop).fs ∧
+    ∀ e ∈ ({ (y.step .drop) with cfg := cfg' } : Sys).open.2.2, ∃ id, e = Ev.sync "o" id true := by
+  obtain ⟨_, e2, _, _, _, _, s', _, _, g3, g4, _⟩ :=
+    c14_busy_restart_step y r cfg' s h hs ht ha hp hrem hpostI
+  obtain ⟨s0, hs0, hdd, _⟩ := h.1
+  rw [hs] at hs0; cases hs0
+  have haliveI := y.workerIdle_aliveC14b s hs hdd ha
+  have hCI : CSys (y.step .workerIdle) r :=
+    run_CSys [.workerIdle] y r r h (by simp [Step.journal]) rfl (by simp [stepOps]) haliveI
+  refine ⟨?_, by rw [g3]; exact syncEvs_isOpenSync _⟩
+  rw [g4, e2]
+  rw [e2] at hd
+  exact c02_syncAll_durable hCI hd
+
 /-- **C14, drop with a busy worker, then open** (hypothesis on the state the
 idle run reaches). `y` is reached from a freshly opened store by a history of
 calls (legal and accepted for the reference log, reaching `r`; well-formed and
@@ -169,7 +193,8 @@ completion no removal is postponed. Then, for every `cfg'`, with
 `y1 := y.step .drop` and `y2 := y1.step (.openWith cfg')`:
 * `y1` is the state `workerIdle` then `drop` reaches; no store, lock released,
   worker thread gone with nothing queued;
-* `open` returns `ok`, issues no file-system event, `y2.fs = y1.fs`;
+* `open` returns `ok`, issues only one `sync "o" id true` per kept chunk file (D15),
+  `y2.fs = y1.fs.syncAll y1.fs.linkedIds` (`= y1.fs` when every linked file is durable);
 * `s'.st = s.st = r.state`, `s'.log = s.log`, same chunk table;
 * `J y2 ∧ CSys y2 r`: every theorem about histories from a fresh store
   continues from `y2`. -/
@@ -188,8 +213,8 @@ theorem c14_busy_drop_then_open_idle (cfg cfg' : Cfg) (steps : List Step) (r : R
     y1.store = none ∧ y1.locked = false ∧ y1.worker.pc = .dead ∧ y1.worker.queue = [] ∧
     ∃ s', y2.store = some s' ∧
       ({ y1 with cfg := cfg' } : Sys).open.1 = .ok () ∧
-      ({ y1 with cfg := cfg' } : Sys).open.2.2 = [] ∧
-      y2.fs = y1.fs ∧
+      ({ y1 with cfg := cfg' } : Sys).open.2.2 = syncEvs y1.fs.linkedIds ∧
+      y2.fs = y1.fs.syncAll y1.fs.linkedIds ∧
       s'.st = s.st ∧ s'.st = r.state ∧ s'.log = s.log ∧
       s'.closed.map (·.offsets) ++ [s'.openOffsets] = s.closed.map (·.offsets) ++ [s.openOffsets] ∧
       s'.closed = s.closed ∧ s'.openOffsets = s.openOffsets ∧
@@ -229,8 +254,8 @@ theorem c14_busy_drop_then_open (cfg cfg' : Cfg) (steps : List Step) (r : RefLog
     y1.store = none ∧ y1.locked = false ∧ y1.worker.pc = .dead ∧ y1.worker.queue = [] ∧
     ∃ s', y2.store = some s' ∧
       ({ y1 with cfg := cfg' } : Sys).open.1 = .ok () ∧
-      ({ y1 with cfg := cfg' } : Sys).open.2.2 = [] ∧
-      y2.fs = y1.fs ∧
+      ({ y1 with cfg := cfg' } : Sys).open.2.2 = syncEvs y1.fs.linkedIds ∧
+      y2.fs = y1.fs.syncAll y1.fs.linkedIds ∧
       s'.st = s.st ∧ s'.st = r.state ∧ s'.log = s.log ∧
       s'.closed.map (·.offsets) ++ [s'.openOffsets] = s.closed.map (·.offsets) ++ [s.openOffsets] ∧
       s'.closed = s.closed ∧ s'.openOffsets = s.openOffsets ∧
@@ -248,8 +273,8 @@ come at any later moment.** Same hypotheses; `more` is ANY history without
 `open` (worker steps of any outcome, idle runs, drains, calls, flushes, further
 drops) placed between the `drop` and the `open`. It leaves the whole system — in
 particular the file system — unchanged (`c14_drop_quiesces_system`), so the
-`open` after it is the `open` right after the `drop`: it succeeds, emits no
-event, and shows the same state. -/
+`open` after it is the `open` right after the `drop`: it succeeds, emits only the
+syncs of the kept chunk files (D15), and shows the same state. -/
 theorem c14_after_busy_drop_nothing_changes (cfg cfg' : Cfg) (steps more : List Step) (r : RefLog)
     (s : Store)
     (hsteps : ∀ st ∈ steps, st.journal = true)
@@ -270,8 +295,8 @@ theorem c14_after_busy_drop_nothing_changes (cfg cfg' : Cfg) (steps more : List 
     y2' = y1.step (.openWith cfg') ∧
     ∃ s', y2'.store = some s' ∧
       ({ y1' with cfg := cfg' } : Sys).open.1 = .ok () ∧
-      ({ y1' with cfg := cfg' } : Sys).open.2.2 = [] ∧
-      y2'.fs = y1.fs ∧
+      ({ y1' with cfg := cfg' } : Sys).open.2.2 = syncEvs y1.fs.linkedIds ∧
+      y2'.fs = y1.fs.syncAll y1.fs.linkedIds ∧
       s'.st = s.st ∧ s'.st = r.state ∧ s'.log = s.log ∧
       s'.closed = s.closed ∧ s'.openOffsets = s.openOffsets ∧
       s'.pending = [] ∧ s'.removed = [] ∧ s'.cfg = cfg' ∧
